@@ -87,13 +87,14 @@ def merge_near(x, r, tol):
     out = [r[0]]
     for j in range(1, len(r) - 1):
         a, b = float(x[r[j] - 1]), float(x[r[j]])
-        if abs(a - b) > tol * max(1.0, abs(a), abs(b)):
+        if abs(a - b) > tol * max(abs(a), abs(b)):
             out.append(r[j])
     out.append(r[-1])
     return out
 
 
-def compare_xr(io, mo, exact: bool, tol=1e-9, with_r=True):
+def compare_xr(io, mo, exact: bool, tol=1e-9, with_r=True, scale=None):
+    """scale: magnitude of the data (max |y|); tolerances are relative to it, so that small units are not hidden"""
     if ("err" in io) != ("err" in mo):
         return f"outcome differs: implementation {io.get('err', 'ok')} vs model {mo.get('err', 'ok')}"
     if "err" in io:
@@ -110,8 +111,9 @@ def compare_xr(io, mo, exact: bool, tol=1e-9, with_r=True):
         if with_r and list(io["r"]) != list(mo["r"]):
             return f"block vector differs: {io['r']} vs model {mo['r']}"
         return None
+    at = tol * (scale if scale else 1.0)
     for i, (a, b) in enumerate(zip(io["x"], xm)):
-        if not close(a, b, tol, tol):
+        if not close(a, b, tol, at):
             return f"x[{i}] = {a!r} but the model gives {float(b)!r}"
     if not with_r:
         return None
@@ -185,6 +187,11 @@ def pava_exact(ys, ws, T):
     return x, [b[0] for b in blocks] + [len(ys)]
 
 
+def data_scale(case):
+    m = max((abs(float(frac(v))) for v in case["y"]), default=0.0)
+    return m if m > 0 else 1.0
+
+
 def contract_oracle(case, io, tol=1e-9):
     """C12's output contract on the implementation's (x, r)"""
     if "err" in io:
@@ -197,8 +204,9 @@ def contract_oracle(case, io, tol=1e-9):
     if io.get("mutated"):
         return "an input array was modified"
     lo, hi = min(y), max(y)
+    sc_ = data_scale(case)
     for i, v in enumerate(x):
-        if not (math.isfinite(v) and lo - tol * max(1, abs(lo)) <= v <= hi + tol * max(1, abs(hi))):
+        if not (math.isfinite(v) and lo - tol * sc_ <= v <= hi + tol * sc_):
             return f"x[{i}]={v!r} outside [min y, max y]=[{lo},{hi}]"
     if not r or r[0] != 0 or r[-1] != n:
         return f"block vector {r} does not start at 0 / end at n={n}"
@@ -225,7 +233,7 @@ DECIMAL_LEVELS = ["0.5", "0.1", "0.2", "0.3", "0.7", "0.8", "0.9", "0.25", "0.75
 
 
 def gen_y(rng, n, style=None):
-    style = style or rng.choice(["small", "small", "digits", "dyadic", "wide", "neg", "big"])
+    style = style or rng.choice(["small", "small", "digits", "dyadic", "wide", "neg", "big", "tiny"])
     if style == "small":
         ys = [rng.randint(0, 3) for _ in range(n)]
     elif style == "digits":
@@ -236,6 +244,8 @@ def gen_y(rng, n, style=None):
         ys = [rng.randint(-5, 2) for _ in range(n)]
     elif style == "big":
         ys = [rng.randint(-3, 3) * 10 ** rng.randint(0, 6) for _ in range(n)]
+    elif style == "tiny":  # small units: no absolute tolerance may be applied in the algorithm
+        ys = [Fraction(rng.randint(-9, 9), 2**45) for _ in range(n)]
     else:
         ys = [Fraction(rng.randint(-(2**30), 2**30), 2**20) for _ in range(n)]
     shape = rng.choice(["rand", "rand", "rand", "sorted", "rev", "saw", "const", "trend"])
@@ -244,11 +254,12 @@ def gen_y(rng, n, style=None):
     elif shape == "rev":
         ys.sort(reverse=True)
     elif shape == "saw":
-        ys = [v + (i % 3) for i, v in enumerate(sorted(ys))]
+        unit = Fraction(1, 2**45) if style == "tiny" else 1
+        ys = [v + (i % 3) * unit for i, v in enumerate(sorted(ys))]
     elif shape == "const":
         ys = [ys[0]] * n
     elif shape == "trend":
-        ys = [v + Fraction(i, 2) for i, v in enumerate(ys)]
+        ys = [v + Fraction(i, 2) * (Fraction(1, 2**45) if style == "tiny" else 1) for i, v in enumerate(ys)]
     return [str(Fraction(v)) for v in ys]
 
 
